@@ -73,6 +73,11 @@ def run(tier, seed):
                     outdir = clirun.make_dir([])
                     paths.append(outdir)
                     extra = ['-o', outdir]
+                    if files and files[0][0] in dict(d) and rng.random() < 0.5:
+                        # the name --json is about to write already exists as a DIRECTORY: nothing may be left behind under another name
+                        n0, p0 = files[0][0], dict(d)[files[0][0]]
+                        os.makedirs(os.path.join(outdir, '%s.0x%08X.json' % (n0, p0['ph']['eid'])), exist_ok=True)
+                        os.makedirs(os.path.join(outdir, '%s.%08X.json' % (n0, p0['ph']['eid'])), exist_ok=True)
                 exfile = None
                 before = clirun.snapshot(path)
                 order = clirun.walk_files(path)
